@@ -205,7 +205,23 @@ def check(run, model, tier):
         # every use of the queue in the thread (also through local aliases): get()/task_done() only - PriorityQueue.queue is a heap, not a sorted list
         aliases = {qp} | {k_ for k_, v_ in local_defs(r.node).items() if any(isinstance(x_, ast.Name) and x_.id == qp for x_ in v_ if not isinstance(x_, tuple))}
         uses = sorted({n_.attr for n_ in walk_shallow(r.node) if isinstance(n_, ast.Attribute) and isinstance(n_.value, ast.Name) and n_.value.id in aliases})
-        passed = [norm(c_) for c_ in shallow_calls(r.node) if any(isinstance(a_, ast.Name) and a_.id in aliases for a_ in list(c_.args) + [k_.value for k_ in c_.keywords])]
+        passed = []
+        for c_ in shallow_calls(r.node):
+            if not any(isinstance(a_, ast.Name) and a_.id in aliases for a_ in list(c_.args) + [k_.value for k_ in c_.keywords]):
+                continue
+            # handed to a helper of the fabric: what the helper does with it counts as done here
+            hm = fab.methods.get(c_.func.attr) if isinstance(c_.func, ast.Attribute) and isinstance(c_.func.value, ast.Name) and c_.func.value.id == r.params[0] else None
+            if hm is not None:
+                static_ = any(isinstance(d_, ast.Name) and d_.id == 'staticmethod' for d_ in hm.node.decorator_list)
+                hp = hm.params if static_ else hm.params[1:]
+                bound = [hp[i_] for i_, a_ in enumerate(c_.args) if i_ < len(hp) and isinstance(a_, ast.Name) and a_.id in aliases]
+                if bound:
+                    huses = sorted({n_.attr for n_ in ast.walk(hm.node) if isinstance(n_, ast.Attribute) and isinstance(n_.value, ast.Name) and n_.value.id in bound})
+                    hpassed = [x_ for x_ in ast.walk(hm.node) if isinstance(x_, ast.Call) and any(isinstance(a_, ast.Name) and a_.id in bound for a_ in x_.args)]
+                    if not hpassed:
+                        uses = sorted(set(uses) | set(huses))
+                        continue
+            passed.append(norm(c_))
         ok = 'get' in uses and set(uses) <= {'get', 'task_done', 'get_nowait'} and not passed
         run.inst('CMP.queue-kind', r, 'drained by get() only', ok,
                  '' if ok else ('the delivery thread touches its priority queue through %s%s: only get() hands out items in (priority, publish order); the underlying list is a binary heap, '
